@@ -113,7 +113,8 @@ def run(ctx):
                           PDrop=Q(1, 2), Inputs=[], GradsIn=[], MaxHist=depth, Acts={"mode", "fwd"}, Nested=True)))
     for name, consts in cfgs:
         if name.startswith("bn2d") and consts["Affine"] and consts["Track"]:
-            HC.model_check(rep, "NormDrop", name + "-mc", consts, [], PROPS, depth=6 if q else 8)
+            # (momentum 1/10: every tracked forward multiplies the denominators by 10 - depth 6 keeps TLC's 32-bit integers exact)
+            HC.model_check(rep, "NormDrop", name + "-mc", consts, [], PROPS, depth=6 if (q or consts["Momentum"] == [Q(1, 10)]) else 8)
     em = HC.emit_many(rep, "NormDrop", cfgs)
     for name, (mx, table, c) in em.items():
         c2 = dict(c, StatsSet=str(c["StatsSet"]))
